@@ -100,6 +100,7 @@ package bytesconv
 //@   modifies this.pos, this.avail, this.failed, mem
 //@   ensures err == nil ==> b == wire(this, old(this.pos)) && this.pos == old(this.pos) + 1
 //@   ensures err != nil ==> this.pos == old(this.pos)
+//@   ensures old(this.failed) ==> this.failed
 //@ interface network.Reader.Len(this) n
 //@   ensures n >= 0
 //@ interface network.Reader.Release(this) err
@@ -117,9 +118,27 @@ package bytesconv
 //@   requires r != nil
 //@   modifies r.pos, r.avail, r.failed, mem
 //@   allocates
+//@   ensures old(r.failed) ==> r.failed
 //@   assert before Skip#3: 0 <= k && k < 16
 //@   assert before Skip#3: i <= 14 && n < 72057594037927936 && k == hexv(wire(r, r.pos))
 //@   top-ensures err == nil && !r.failed ==> old(r.pos) < r.pos && r.pos <= old(r.pos) + 15 && 0 <= n && n == foldHexW(r, old(r.pos), r.pos, 0) && hexv(wire(r, r.pos)) == 16
 //@   loop 0:
 //@     invariant 0 <= i && i <= 15 && r.pos == old(r.pos) + i && 0 <= n && n < pow16(i) && (old(r.failed) ==> r.failed)
 //@     invariant forall(h, r.pos, old(r.pos) + 40, foldHexW(r, r.pos, h, n) == foldHexW(r, old(r.pos), h, 0))
+
+// io.Reader seen on a connection that is also a network.Reader: Read consumes exactly the bytes it returns.
+//@ interface io.Reader.Read(this, p) n, err
+//@   modifies this.pos, this.avail, this.failed, mem
+//@   allocates
+//@   ensures 0 <= n && n <= len(p) && this.pos == old(this.pos) + n && (old(this.failed) ==> this.failed)
+
+// bytes.Reader (prefetched body bytes): unread portion is s[i:].
+//@ extern bytes.Reader.Size(r) n
+//@   ensures n == len(r.s)
+//@ extern bytes.Reader.Read(r, b) n, err
+//@   modifies r.i, mem
+//@   ensures old(r.i) >= len(r.s) ==> n == 0 && err != nil && r.i == old(r.i)
+//@   ensures old(r.i) < len(r.s) ==> err == nil && n == ite(len(b) <= len(r.s) - old(r.i), len(b), len(r.s) - old(r.i)) && r.i == old(r.i) + n
+//@ extern bytes.NewReader(b) r
+//@   allocates
+//@   ensures r != nil && fresh(r) && r.i == 0 && len(r.s) == len(b)
